@@ -1,6 +1,6 @@
 //! C01 — calendar / ordinal / ISO-week / day-count forms of a date agree.
 //! Shape S: the whole date space walked as a chain (succ_opt), impl and RefCal in lock-step.
-use chrono::{Datelike, NaiveDate, Weekday};
+use chrono::{NaiveDateTime, NaiveTime, Datelike, NaiveDate, Weekday};
 use chrono_mc::core::*;
 use chrono_mc::refcal::*;
 use chrono_mc::check_eq;
@@ -111,6 +111,31 @@ fn sweep_years(y0: i64, y1: i64, acc: &mut Acc) {
             Some(d),
             format!("NaiveDate::from_num_days_from_ce_opt({})", c.z + CE_OFFSET)
         );
+        // sibling forms: the deprecated panicking constructors, the conversions to and from NaiveDateTime, and the
+        // Datelike view of a NaiveDateTime (its num_days_from_ce is the trait's default body, not NaiveDate's)
+        #[allow(deprecated)]
+        {
+            check_eq!(
+                acc,
+                "deprecated-constructors",
+                (NaiveDate::from_ymd(c.y as i32, c.m, c.d), NaiveDate::from_yo(c.y as i32, c.ord), NaiveDate::from_isoywd(c.iso_y as i32, c.iso_w, wd(c.wd)), NaiveDate::from_num_days_from_ce((c.z + CE_OFFSET) as i32)),
+                (d, d, d, d),
+                format!("NaiveDate::from_ymd / from_yo / from_isoywd / from_num_days_from_ce on the fields of day number {}", c.z + CE_OFFSET)
+            );
+        }
+        {
+            let t = chrono_mc::lattice::mk_time_any(((c.z.rem_euclid(86_400)) as u32 * 7919) % 86_400, (c.z.rem_euclid(1000) as u32) * 1_999_999);
+            let ndt = d.and_time(t);
+            let iw = ndt.iso_week();
+            check_eq!(
+                acc,
+                "NaiveDateTime:Datelike",
+                (ndt.year() as i64, ndt.month(), ndt.day(), ndt.ordinal(), ndt.weekday().num_days_from_monday(), iw.year() as i64, iw.week(), ndt.num_days_from_ce() as i64, ndt.month0(), ndt.day0(), ndt.ordinal0(), ndt.year_ce()),
+                (c.y, c.m, c.d, c.ord, c.wd, c.iso_y, c.iso_w, c.z + CE_OFFSET, c.m - 1, c.d - 1, c.ord - 1, if c.y >= 1 { (true, c.y as u32) } else { (false, (1 - c.y) as u32) }),
+                format!("Datelike accessors of NaiveDateTime {:?}", ndt)
+            );
+            check_eq!(acc, "NaiveDate<->NaiveDateTime", (NaiveDate::from(ndt), NaiveDateTime::from(d).date(), NaiveDateTime::from(d).time(), ndt.date()), (d, d, NaiveTime::MIN, d), format!("From conversions between NaiveDate and NaiveDateTime at {:?}", ndt));
+        }
         acc.hit(ACCEPT);
         if c.iso_y > c.y {
             acc.hit_nt(ISO_GT);
@@ -234,6 +259,32 @@ fn year_args(y: i64, acc: &mut Acc) {
                 } else {
                     acc.hit(ALIAS);
                 }
+            }
+        }
+    }
+    // the deprecated panicking forms on a handful of tuples per year: the _opt answer, or a panic where that is None
+    #[allow(deprecated)]
+    if y.rem_euclid(5) == 0 || !in_range_year {
+        for (m, d) in [(0u32, 1u32), (13, 1), (2, 29), (2, 30), (4, 31), (12, 31), (1, 0), (1, 32)] {
+            acc.transitions += 1;
+            let got = guard(|| NaiveDate::from_ymd(yi, m, d)).ok();
+            if got != NaiveDate::from_ymd_opt(yi, m, d) {
+                acc.violation("from_ymd (deprecated form)", format!("NaiveDate::from_ymd({}, {}, {})", y, m, d), format!("{:?} (panic for None)", NaiveDate::from_ymd_opt(yi, m, d)), format!("{:?}", got));
+            }
+        }
+        for o in [0u32, 1, 365, 366, 367] {
+            acc.transitions += 1;
+            let got = guard(|| NaiveDate::from_yo(yi, o)).ok();
+            if got != NaiveDate::from_yo_opt(yi, o) {
+                acc.violation("from_yo (deprecated form)", format!("NaiveDate::from_yo({}, {})", y, o), format!("{:?} (panic for None)", NaiveDate::from_yo_opt(yi, o)), format!("{:?}", got));
+            }
+        }
+        for (w, k) in [(0u32, 0u32), (1, 0), (1, 6), (52, 6), (53, 0), (53, 6), (54, 0)] {
+            acc.transitions += 1;
+            let got = guard(|| NaiveDate::from_isoywd(yi, w, wd(k))).ok();
+            let want = guard(|| NaiveDate::from_isoywd_opt(yi, w, wd(k))).ok().flatten();
+            if got != want {
+                acc.violation("from_isoywd (deprecated form)", format!("NaiveDate::from_isoywd({}, {}, {:?})", y, w, wd(k)), format!("{:?} (panic for None)", want), format!("{:?}", got));
             }
         }
     }
